@@ -44,6 +44,7 @@ class HeaderView(object):
         self.enums = {}         # enum name -> {enumerator: value}
         self.enum_of_const = {}
         self.functions = set()
+        self.consts = {}        # static const <int type> NAME = <constant>;
         self.anon = 0
         for ext in self.ast.ext:
             self.visit_ext(ext)
@@ -58,6 +59,11 @@ class HeaderView(object):
                 self.ctype(t)
             elif isinstance(t, c.Enum) and t.values is not None:
                 self.enum(t)
+            elif isinstance(t, c.TypeDecl) and ext.init is not None and 'const' in (ext.quals or []):
+                try:
+                    self.consts[ext.name] = self.const(ext.init)
+                except RuntimeError:
+                    pass
 
     def enum(self, t):
         vals = {}
@@ -288,10 +294,13 @@ class Mapper(object):
                 raise ShapeError('ENUMERATED mapped to a non-enum field')
             return self.enum_const(ct, v)
         if k == 'BIT STRING':
+            # the header's convention (tests/test_uper.c, tests/test_oer.c): UPER keeps the string right aligned
+            # in the integer, OER left aligned in ceil(n / 8) bytes
             data, n = v
             if n == 0:
                 return 0
-            return int.from_bytes(bytes(data)[:(n + 7) // 8], 'big') >> (((n + 7) // 8) * 8 - n)
+            x = int.from_bytes(bytes(data)[:(n + 7) // 8], 'big')
+            return x >> (((n + 7) // 8) * 8 - n) if self.codec == 'uper' else x
         if k == 'NULL':
             return 0
         raise ShapeError(k)
@@ -341,7 +350,7 @@ class Mapper(object):
         if k == 'CHOICE':
             ch_t = field_type(ct, 'choice')
             names = [m.name for m in b.all_members()]
-            name = self.enum_name(ch_t, int(obj.choice), names)
+            name = self.enum_name(ch_t, int(getattr(obj.choice, 'value', obj.choice)), names)
             for m in b.all_members():
                 if m.name == name:
                     if asn.base_kind(self.spec, m.ty, r.mod) == 'NULL':
@@ -390,8 +399,39 @@ class Mapper(object):
             n = r.size.lo
             x = int(x)
             nbytes = (n + 7) // 8
-            return ((x << (nbytes * 8 - n)).to_bytes(nbytes, 'big') if n else b'', n)
+            if self.codec == 'uper':
+                x <<= (nbytes * 8 - n)
+            if x >> (nbytes * 8):
+                return ('<bits outside the %d byte container: %#x>' % (nbytes, x))
+            return (x.to_bytes(nbytes, 'big') if n else b'', n)
         raise ShapeError(k)
+
+
+def named_bit_constants(asn, spec, mapper, ty, modname, prefix):
+    """[(constant name, bit name, bit number, value the struct must hold for exactly that bit)] for the
+    BIT STRINGs declared inline in a top-level type (references have their own constants)"""
+    out = []
+
+    def walk(t, pre):
+        if t.kind == 'REF':
+            return
+        if t.kind in ('SEQUENCE', 'SET', 'CHOICE'):
+            for m in t.all_members():
+                walk(m.ty, pre + '_' + canonical(m.name))
+        elif t.kind in ('SEQUENCE OF', 'SET OF'):
+            walk(t.elem, pre)
+        elif t.kind == 'BIT STRING' and t.named_bits and t.size is not None and t.size.lo == t.size.hi:
+            n = t.size.lo
+            r = asn.resolve(spec, t, modname)
+            for name, pos in t.named_bits:
+                if pos >= n:
+                    continue
+                data = bytearray((n + 7) // 8)
+                data[pos // 8] |= 0x80 >> (pos % 8)
+                out.append(((pre + '_' + canonical(name)).upper(), name, pos,
+                            mapper.scalar(r, (bytes(data), n), None)))
+    walk(ty, prefix)
+    return out
 
 
 # ---------------------------------------------------------------------------
@@ -422,6 +462,17 @@ def child_main(jobfile):
         dec = getattr(lib, sname + '_decode')
         enc.restype = ctypes.c_ssize_t
         dec.restype = ctypes.c_ssize_t
+        # named-bit constants must name the bit the codec functions read
+        nb = []
+        for cname, bname, pos, want_const in named_bit_constants(mapper.asn, spec, mapper, ty, modname, sname):
+            got = view.consts.get(cname)
+            if got is None:
+                nb.append('no constant %s for named bit %s(%d)' % (cname, bname, pos))
+            elif got != want_const:
+                nb.append('%s = %#x but bit %s(%d) is %#x in the struct member' % (cname, got, bname, pos, want_const))
+        res['named_bits_checked'] = len(named_bit_constants(mapper.asn, spec, mapper, ty, modname, sname))
+        if nb:
+            res['named_bit_errors'] = nb
         for vi, vj in enumerate(item['values']):
             v = jsonio.dec(vj['value'])
             want = bytes.fromhex(vj['encoded'])
@@ -454,11 +505,13 @@ def child_main(jobfile):
                     break
             one['small_buffer_failures'] = small
             # (2) decode
-            obj2 = ct()
-            ctypes.memset(ctypes.byref(obj2), 0xEE, ctypes.sizeof(obj2))
+            arena = (ctypes.c_uint8 * (ctypes.sizeof(ct) + 2 * CANARY))(*([0xEE] * (ctypes.sizeof(ct) + 2 * CANARY)))
+            obj2 = ct.from_buffer(arena, CANARY)
             src = (ctypes.c_uint8 * max(1, len(want)))(*want)
             m = dec(ctypes.byref(obj2), src, ctypes.c_size_t(len(want)))
             one['c_decode_ret'] = m
+            one['decode_canary_ok'] = (all(x == 0xEE for x in arena[:CANARY])
+                                       and all(x == 0xEE for x in arena[CANARY + ctypes.sizeof(ct):]))
             if m >= 0:
                 try:
                     back = mapper.get(ty, modname, obj2, ct)
@@ -469,7 +522,8 @@ def child_main(jobfile):
                 except ShapeError as e:
                     one['shape_error'] = str(e)
                 except Exception as e:
-                    one['map_error'] = '%s: %s' % (type(e).__name__, e)
+                    import traceback
+                    one['map_error'] = '%s: %s @ %s' % (type(e).__name__, e, traceback.format_exc().splitlines()[-3].strip())
             # truncated input must be an error, never a crash
             for cut in range(0, len(want)):
                 obj3 = ct()
